@@ -184,6 +184,21 @@ pub fn eval(case: &Case, st: &mut Stats) -> Result<(), String> {
     {
         let mut g3 = Generator::new();
         let n = data.len() as u64;
+        // the declaration comes first, in the middle of the data or after all of it
+        let fp = oracle::fingerprint(&data[..data.len().min(96)]);
+        let early = match fp % 3 {
+            0 => 0,
+            1 => ((fp >> 8) % (n + 1)) as usize,
+            _ => data.len(),
+        };
+        st.class(match fp % 3 {
+            0 => "declared_first",
+            1 => "declared_midway",
+            _ => "declared_last",
+        });
+        must("update", || {
+            g3.update(&data[..early]);
+        })?;
         let r1 = must("set_fixed_input_size", || g3.set_fixed_input_size(n))?;
         ensure_eq!(r1, Ok(()), "set_fixed_input_size({})", n);
         let other = n / 977 + 1;
@@ -192,9 +207,9 @@ pub fn eval(case: &Case, st: &mut Stats) -> Result<(), String> {
             ensure_eq!(r2, Err(GeneratorError::FixedSizeMismatch), "second, different set_fixed_input_size({})", other);
         }
         must("update", || {
-            g3.update(&data);
+            g3.update(&data[early..]);
         })?;
-        check_generator_output(&g3, &r, "generator with a declared size and a refused re-declaration")?;
+        check_generator_output(&g3, &r, "generator with a declared size (before, amid or after the data) and a refused re-declaration")?;
     }
     let hb = must("hash_buf", || ssdeep::hash_buf(&data))?;
     match hb {
